@@ -458,30 +458,30 @@ func withWeights(over map[string]int) map[string]int {
 }
 
 var profiles = map[string]*profile{
-	"general": {name: "general", macros: 6, weights: withWeights(map[string]int{"resize": 2}), minLen: 4, maxLen: 40, grid: 25, chunks: []int{0, 0, 1, 3}},
-	"C01": {name: "C01", macros: 8, weights: withWeights(map[string]int{"resize": 8, "badutf8": 6, "cursor": 16, "scroll": 12, "margins": 8, "erase": 12, "manyparams": 3, "oddcsi": 4, "textzero": 4}),
+	"general": {name: "general", gmode: 15, macros: 6, weights: withWeights(map[string]int{"resize": 2}), minLen: 4, maxLen: 40, grid: 25, chunks: []int{0, 0, 1, 3}},
+	"C01": {name: "C01", gmode: 15, macros: 8, weights: withWeights(map[string]int{"resize": 8, "badutf8": 6, "cursor": 16, "scroll": 12, "margins": 8, "erase": 12, "manyparams": 3, "oddcsi": 4, "textzero": 4}),
 		minLen: 4, maxLen: 60, grid: 30, chunks: []int{0, 1, 2, 3}, sizes: func(g *genCtx) (int, int) { return g.sizePick() }},
-	"C02": {name: "C02", macros: 8, weights: withWeights(map[string]int{"resize": 5, "textwide": 20, "goto": 20, "erase": 14, "sgr": 10, "badutf8": 3}),
+	"C02": {name: "C02", gmode: 15, macros: 8, weights: withWeights(map[string]int{"resize": 5, "textwide": 20, "goto": 20, "erase": 14, "sgr": 10, "badutf8": 3}),
 		minLen: 6, maxLen: 50, grid: 25, chunks: []int{0, 1, 3}},
-	"C03": {name: "C03", macros: 8, macroSet: []string{"wide-edges", "autowrap-corners", "outside-region"}, weights: map[string]int{"text": 30, "textwide": 20, "textlong": 15, "goto": 14, "wrap": 8, "cursor": 6, "sgr": 5, "crlf": 4, "margins": 2, "badutf8": 3, "c0": 3},
+	"C03": {name: "C03", gmode: 20, macros: 8, macroSet: []string{"wide-edges", "autowrap-corners", "outside-region"}, weights: map[string]int{"text": 30, "textwide": 20, "textlong": 15, "goto": 14, "wrap": 8, "cursor": 6, "sgr": 5, "crlf": 4, "margins": 2, "badutf8": 3, "c0": 3},
 		minLen: 4, maxLen: 40, grid: 30, chunks: []int{0, 1, 3}},
-	"C04": {name: "C04", macros: 8, macroSet: []string{"outside-region", "autowrap-corners", "save-resize-restore"}, weights: map[string]int{"cursor": 40, "c0": 15, "index": 12, "goto": 6, "margins": 8, "text": 10, "textwide": 3, "wrap": 3, "lf": 5, "crlf": 3},
+	"C04": {name: "C04", gmode: 8, macros: 8, macroSet: []string{"outside-region", "autowrap-corners", "save-resize-restore"}, weights: map[string]int{"cursor": 40, "c0": 15, "index": 12, "goto": 6, "margins": 8, "text": 10, "textwide": 3, "wrap": 3, "lf": 5, "crlf": 3},
 		minLen: 4, maxLen: 40, grid: 30, chunks: []int{0, 1}},
-	"C05": {name: "C05", macros: 8, macroSet: []string{"wide-edges"}, weights: map[string]int{"erase": 35, "goto": 20, "text": 15, "textwide": 15, "textlong": 6, "sgr": 8, "wrap": 2, "crlf": 3},
+	"C05": {name: "C05", gmode: 12, macros: 8, macroSet: []string{"wide-edges"}, weights: map[string]int{"erase": 35, "goto": 20, "text": 15, "textwide": 15, "textlong": 6, "sgr": 8, "wrap": 2, "crlf": 3},
 		minLen: 5, maxLen: 40, grid: 30, chunks: []int{0, 1}},
-	"C06": {name: "C06", macros: 10, macroSet: []string{"outside-region", "autowrap-corners"}, weights: map[string]int{"scroll": 25, "margins": 14, "index": 14, "lf": 8, "goto": 12, "text": 12, "textwide": 5, "textlong": 6, "wrap": 4, "sgr": 4, "crlf": 4},
+	"C06": {name: "C06", gmode: 10, macros: 10, macroSet: []string{"outside-region", "autowrap-corners"}, weights: map[string]int{"scroll": 25, "margins": 14, "index": 14, "lf": 8, "goto": 12, "text": 12, "textwide": 5, "textlong": 6, "wrap": 4, "sgr": 4, "crlf": 4},
 		minLen: 5, maxLen: 40, grid: 30, chunks: []int{0, 1}},
 	"C07": {name: "C07", macros: 4, macroSet: []string{"wide-edges"}, weights: map[string]int{"sgr": 40, "text": 20, "textwide": 6, "erase": 12, "goto": 10, "scroll": 3, "manyparams": 3, "crlf": 3},
 		minLen: 5, maxLen: 40, grid: 30, chunks: []int{0, 1}},
 	"C09": {name: "C09", weights: map[string]int{"oddcsi": 25, "esc": 15, "osc": 15, "dcs": 10, "text": 20, "textwide": 4, "manyparams": 4, "sgr": 3, "cursor": 4, "query": 3, "mode": 3, "kbd": 3},
 		minLen: 3, maxLen: 30, grid: 10, chunks: []int{0, 1, 2, 3}},
-	"C10": {name: "C10", macros: 8, weights: withWeights(map[string]int{"altscreen": 6, "scroll": 10, "index": 8, "textwide": 15, "lf": 8}),
+	"C10": {name: "C10", gmode: 12, macros: 8, weights: withWeights(map[string]int{"altscreen": 6, "scroll": 10, "index": 8, "textwide": 15, "lf": 8}),
 		minLen: 5, maxLen: 50, grid: 30, chunks: []int{0, 1}},
 	"C14": {name: "C14", macros: 8, macroSet: []string{"alt-roundtrip", "save-resize-restore"}, weights: withWeights(map[string]int{"query": 25, "kbd": 8, "altscreen": 4, "goto": 14, "resize": 3}),
 		minLen: 4, maxLen: 40, grid: 20, chunks: []int{0, 1, 3}},
 	"C17": {name: "C17", macros: 12, macroSet: []string{"alt-roundtrip"}, weights: map[string]int{"mode": 30, "altscreen": 15, "text": 15, "textwide": 4, "goto": 8, "kbd": 8, "margins": 5, "wrap": 6, "sgr": 4, "erase": 4, "scroll": 3, "lf": 4},
 		minLen: 5, maxLen: 40, grid: 20, chunks: []int{0, 1}},
-	"C18": {name: "C18", macros: 10, macroSet: []string{"save-resize-restore", "wide-edges"}, weights: withWeights(map[string]int{"resize": 20, "textwide": 15, "textlong": 12, "margins": 8, "cursor": 12, "altscreen": 3}),
+	"C18": {name: "C18", gmode: 10, macros: 10, macroSet: []string{"save-resize-restore", "wide-edges"}, weights: withWeights(map[string]int{"resize": 20, "textwide": 15, "textlong": 12, "margins": 8, "cursor": 12, "altscreen": 3}),
 		minLen: 5, maxLen: 40, grid: 30, chunks: []int{0, 1}, sizes: func(g *genCtx) (int, int) { return g.sizePick() }},
 	"C19": {name: "C19", macros: 10, macroSet: []string{"alt-roundtrip"}, weights: map[string]int{"kbd": 70, "altscreen": 10, "text": 5, "mode": 5, "query": 5},
 		minLen: 5, maxLen: 80, grid: 5, chunks: []int{0, 1}},
@@ -498,6 +498,7 @@ func genCase(p *profile, r *prng) Case {
 	c := Case{W: g.w, H: g.h, Grid: r.intn(100) < p.grid, Chunk: pick(r, p.chunks)}
 	if r.intn(100) < p.gmode {
 		c.Mode = 1
+		c.Grid = false // grapheme mode is exercised on the default (span) buffer
 	}
 	if c.Chunk >= 3 {
 		c.Chunk = 3 + r.intn(1000)
@@ -526,6 +527,11 @@ func genCase(p *profile, r *prng) Case {
 		for _, k := range classes {
 			x -= p.weights[k]
 			if x < 0 {
+				if c.Mode == 1 && k == "badutf8" {
+					k = "textzero"
+				} else if c.Mode == 1 && k == "text" && r.chance(1, 3) {
+					k = "textzero"
+				}
 				c.Items = append(c.Items, g.item(k))
 				break
 			}
